@@ -246,6 +246,13 @@ func oneFlavour(w0 *ev.W, v tbin.Value, flavour string) {
 		w.Violation("readvalue-error:"+v.T.String(), fmt.Sprintf("ReadValue(%s): %v", key, err), rep)
 	}
 
+	// 3c. ReadValue behind a ReaderAt that returns the final bytes together with io.EOF
+	rd3 := binary.NewReader(shortReaderAt{ref})
+	if rvv, off, err := rd3.ReadValue(wire.Type(v.T), 0); err != nil {
+		w.Violation("readvalue-eof-with-data:"+v.T.String(), fmt.Sprintf("ReadValue(%s) behind a ReaderAt that reports io.EOF with the last bytes: %v", key, err), rep)
+	} else if got, ferr := wirex.FromWire(rvv); ferr != nil || got.Key() != key || off != int64(len(ref)) {
+		w.Violation("readvalue-eof-with-data:"+v.T.String(), fmt.Sprintf("ReadValue(%s) behind a ReaderAt that reports io.EOF with the last bytes = %s err=%v offset %d of %d", key, got.Key(), ferr, off, len(ref)), rep)
+	}
 	// 4. stream reader over a non-seekable reader, under read segmentations:
 	// whole, all-1-byte, first read 1 byte, zero-length reads; every single
 	// cut for encodings <= 24 bytes.
